@@ -325,6 +325,18 @@ impl<'w> Run<'w> {
         let now = op["now"].as_u64().unwrap_or(1000);
         iroh_docs::verif::set_clock(now);
         let kind = op["op"].as_str().unwrap();
+        // optionally leave a read snapshot / an open write transaction as the store's current transaction
+        if let Some(store) = self.store.as_mut() {
+            match op["pre"].as_str() {
+                Some("list") => {
+                    let _ = store.list_namespaces().map(|it| it.count());
+                }
+                Some("write") => {
+                    let _ = store.import_author(w.stranger.clone());
+                }
+                _ => {}
+            }
+        }
         let ev = match kind {
             "local" | "delete" => {
                 let a = op["a"].as_i64().unwrap();
@@ -693,6 +705,10 @@ pub fn gen_history(r: &mut Rng, g: &GenCfg) -> Vec<Value> {
             let cls = if g.invalid && r.chance(1, 3) { *r.pick(CLASSES) } else { "ok" };
             json!({"op":"remote","e":gen_entry(r, g, now),"cls":cls,"from":1 + r.below(2),"cs":r.below(3),"now":now})
         };
+        let mut op = op;
+        if !matches!(op["op"].as_str(), Some("reopen") | Some("remove")) && r.chance(1, 8) {
+            op["pre"] = json!(*r.pick(&["list", "write"]));
+        }
         ops.push(op);
     }
     ops
